@@ -229,6 +229,15 @@ theorem getSlice_eq (b : Bits) (start stop step : Option Int) {s e st : Int}
     intro j
     exact getList_testBit b _ j
 
+theorem getSlice_fast (b : Bits) (start stop step : Option Int) {s e : Int}
+    (h : sliceIndices start stop step b.size = .ok (s, e, 1)) (hes : s ≤ e) :
+    b.getSlice start stop step = .ok (b.sliceFast s.toNat e.toNat) := by
+  unfold getSlice
+  rw [h]
+  show (if (1 : Int) = 1 ∧ e ≥ s then (pure (b.sliceFast s.toNat e.toNat) : Except Err Bits) else b.getList (Py.range s e 1)) = _
+  have : (1 : Int) = 1 ∧ e ≥ s := by omega
+  rw [if_pos this]; rfl
+
 /-! ### writing: `b[i]=v` -/
 
 theorem setInt_eq (b : Bits) (i : Int) (v : Nat) :
